@@ -587,12 +587,16 @@ def check(prop, tier, seed, replay=None):
         # every valid spec-suite module once, untruncated, under a seeded option combination and schedule
         pool3 = WorkerPool(mk(["--sweep"]), sweep_size(cdir), wall_cap=1800)
         run_wall += pool3.run()
+        for r in pool3.results:
+            r["variant"] = "sweep"        # other command line: not part of the determinism canary's re-execution below
         allres += pool3.results; crashes += pool3.crashes; internal += pool3.internal
     if prop == "C10" and tier == "thorough":
         # exhaustive truncation points for the small corpus modules (groups of 4096 indices)
         ngroups = int(os.environ.get("VERIF_C10_GROUPS", "48"))
         pool2 = WorkerPool(mk(["--c10-enum"]), ngroups * 4096, wall_cap=7200)
         run_wall += pool2.run()
+        for r in pool2.results:
+            r["variant"] = "enum"
         allres += pool2.results; crashes += pool2.crashes; internal += pool2.internal
 
     dump_hashes(prop, allres)
@@ -705,6 +709,7 @@ def check(prop, tier, seed, replay=None):
 
     # determinism canary
     canary_bad = 0
+    canary_which = []
     okres = [r for r in allres if r.get("status") == "ok" and r.get("variant", "default") == "default"]
     sample = okres[:: max(1, len(okres) // 16)][:16]
     for a in sample:
@@ -714,8 +719,9 @@ def check(prop, tier, seed, replay=None):
             d = parse_result_line(line)
             if d and (d.get("log"), d.get("il"), d.get("sig"), d.get("outhash")) != (a.get("log"), a.get("il"), a.get("sig"), a.get("outhash")):
                 canary_bad += 1
+                canary_which.append("idx %s: %s -> %s" % (a["idx"], (a.get("log"), a.get("il"), a.get("sig"), a.get("outhash")), (d.get("log"), d.get("il"), d.get("sig"), d.get("outhash"))))
     if canary_bad:
-        internal.append("INTERNAL: determinism canary: %d of %d re-executed runs differ" % (canary_bad, len(sample)))
+        internal.append("INTERNAL: determinism canary: %d of %d re-executed runs differ (%s)" % (canary_bad, len(sample), "; ".join(canary_which)))
 
     samples = []
     o = subprocess.run([exe, "--prop", prop, "--corpus", cdir, "--seed", str(seed), "--start", "0", "--count", "1", "--dump-plan"], stdout=subprocess.PIPE).stdout.decode()
